@@ -3,6 +3,12 @@ replay files into known_findings.json after they have been triaged by hand."""
 import glob, json, sys
 prop = sys.argv[1]
 what = {
+ "D4": "Equals.get_keys returns only the first value of a Literal: on the lookup-table path (4 or more literal methods) the other values of a multi-valued Literal are lost, and exclusivity is inferred from the first values only (dependent.py L261-262, recode.py L211-223)",
+ "D6": "overlapping Literal methods (equal values, or 1 == True) run the first match / the last table entry instead of raising the ambiguity (recode.py L211-223)",
+ "D4D6": "Literal dispatch: first value only on the table path, first match on overlapping literals (findings D4 and D6 seen through whole functions)",
+ "D7": "a value-dependent member of a Union / Intersection is checked without its bound and nested combinators are spliced without parentheses: conditions run on values outside their bound, exceptions leak, methods run on values their annotation excludes (types.py L323-329, L374-380)",
+ "D20": "a dependent rank that falls through into a tied static rank raises 'No method' instead of the ambiguity (typemap.py L318, recode.py L280)",
+ "D1D23": "levels of unrelated types / membership of a dependent rank depends on the sort head (findings D1, D23 with dependent types)",
  "D13": "an ancestor reached through an unlinked edge that is not the direct parent of the built function (or through a path mixing linked and unlinked edges) is neither locked nor propagating: it accepts a modification and the built descendant silently keeps the old table (core.py compile L487-489, lock L427-428)",
  "D14": "add_mixins on a function that is already in use (or on one of its linked ancestors) does not rebuild: the new mixin's methods are ignored (core.py add_mixins L434-440 has no _update())",
  "D1": "levels are integers: two applicable declared types that are unrelated (neither a subclass of the other) at different depths compare as ordered, so a method wins although the documented rule says Ambiguous (typemap.py Candidate.dominates / sort_key)",
